@@ -757,6 +757,23 @@ Proof.
   - right. rewrite map_app. apply Exists_app. right. cbn [map]. constructor. exact H0.
 Qed.
 
+(* ... since commit "StatCoder::encodeString overruns its buffer by one byte": 4 * strLen + 1 bytes, enough for EVERY table with code
+   words of at most 32 bits and every pattern - no hypothesis on the NUL's code word is needed any more *)
+Theorem tmp4p1_ok m bits : Forall (fun b => b <= 32) bits -> lenN bits <= m -> snd (tmp_encode bits) <= 4 * m + 1.
+Proof. intros H Hl. apply tmp_ok; [exact H|]. pose proof (sumN_le_len 32 bits H). lia. Qed.
+
+Theorem encode_string_p1_ok bl q : Forall (fun k => k <= 32) bl ->
+  snd (tmp_encode (map (sym_bits bl) (q ++ [0]))) <= 4 * (lenN q + 1) + 1.
+Proof.
+  intros Hbl. apply tmp4p1_ok.
+  - apply map_sym_bits_le32. exact Hbl.
+  - rewrite lenN_map, lenN_app. change (lenN [0]) with 1. lia.
+Qed.
+
+(* the old allocation (4 * strLen) is overrun by the one-symbol string whose code word has 32 bits *)
+Theorem encode_string_old_refuted : exists bits, Forall (fun b => b <= 32) bits /\ lenN bits = 1 /\ 4 * 1 < snd (tmp_encode bits).
+Proof. exists [32]. split; [repeat constructor; lia|]. split; [reflexivity|]. vm_compute. reflexivity. Qed.
+
 (* maxcomplength: the constructors keep the maximum of the encoded header sizes; decoding reads `maxcomplength + 4` bytes *)
 Lemma fold_max_ge_init : forall (l : list N) m, m <= fold_left N.max l m.
 Proof. induction l as [|y l IH]; intros m; cbn [fold_left]; [lia|]. specialize (IH (N.max m y)). lia. Qed.
